@@ -6,6 +6,7 @@
 -/
 import MultiModel.Gen.StoreGen
 import MultiProofs.TieTactic
+import MultiProofs.TieLemmas
 
 namespace Multi.GenTieStore
 open Multi Multi.Gen
@@ -75,7 +76,10 @@ theorem SV_assign_copy_tie :
     SV_assign_copy ⟨b, d :: sub⟩ src m false = View.assign ⟨b, d :: sub⟩ src m ∧ SV_assign_copy ⟨b, d :: sub⟩ src m true = some m :=
   ⟨by simp [SV_assign_copy, View.assign], by simp [SV_assign_copy]⟩
 theorem SV_assign_other_tie : SV_assign_other ⟨b, d :: sub⟩ src m = View.assignT ⟨b, d :: sub⟩ src m := by
-  tie_simp [SV_assign_other, View.assignT]
+  first
+  | (simp [SV_assign_other, View.assignT]; done)
+  | (simp only [SV_assign_other, View.assignT]; rw [Exts.eqv_comm src.exts]; done)
+  | (simp only [SV_assign_other, View.assignT]; rw [Exts.eqv_comm src.exts]; simp)
 theorem SV_assign_rest_tie :
     SV_assign_other_rv ⟨b, d :: sub⟩ src m = View.assign ⟨b, d :: sub⟩ src m ∧
     SV_assign_from_rv ⟨b, d :: sub⟩ src m = View.assign ⟨b, d :: sub⟩ src m ∧
@@ -139,14 +143,14 @@ theorem AR_assign_tie (dst src : View) (m : Mem α) :
     AR_assign dst src m false = View.arefAssign dst src m ∧ AR_assign dst src m true = some m ∧
     AR_assign_T dst src m = View.arefAssignT dst src m := by
   refine ⟨?_, by simp [AR_assign], rfl⟩
-  unfold AR_assign View.arefAssign AR_copy_elements
+  simp only [AR_assign, View.arefAssign, AR_copy_elements]
   by_cases h : dst.numElements = src.numElements <;> simp [h]
 
 /-- the `&&` overload for another element/pointer type asserts equal EXTENSIONS and then runs `copy_elements_` (count taken
     from the destination): with equal extensions both counts agree, so it is `View.arefAssignT` -/
 theorem AR_assign_other_rv_tie (dst src : View) (m : Mem α) (hn : Exts.eqv dst.exts src.exts = true → dst.numElements = src.numElements) :
     AR_assign_other_rv dst src m = View.arefAssignT dst src m := by
-  unfold AR_assign_other_rv View.arefAssignT AR_copy_elements
+  simp only [AR_assign_other_rv, View.arefAssignT, AR_copy_elements]
   by_cases h : Exts.eqv dst.exts src.exts = true
   · simp [h, hn h]
   · simp [h]
